@@ -6,10 +6,12 @@ func verifHarness_f06() {
 	a := A(verifNdInt(1))
 	fb := B(verifNdInt(3))
 	var d D
-	verifAllow("T1", 3)
+	verifAllow("T1", 7)
+	var b B
+	var e1 error
 	verifRefBegin()
-	b, e1 := T1(a)
-	if e1 != nil {
+	pan, _ := verifTry(func() { b, e1 = T1(a) })
+	if pan || e1 != nil {
 		b = fb
 	}
 	want, _ := T8(b)
@@ -26,6 +28,7 @@ func verifHarness_f06() {
 	verifAssert(A(verifCallArg("T1", 0, 0)) == a, 5)
 	verifAssert(verifSchedConcurrency() == 3, 6)
 	verifCover(e1 != nil, 1)
+	verifCover(pan, 2)
 }
 
 // C15: the generated wrapper must not capture a user variable named err
